@@ -1,6 +1,7 @@
 package codec
 
 import (
+	"bytes"
 	"io"
 	"sync"
 )
@@ -27,15 +28,20 @@ func (f *Frame) String() string {
 }
 
 func (f *Frame) Read(r io.Reader) ([]byte, error) {
-	bin := make([]byte, f.size)
 	// A single Read may legally return fewer bytes than asked (pipes, chunked
 	// streams), so read until the whole payload arrived. Zero-length payload
-	// (e.g. empty string) reads nothing.
-	if _, err := io.ReadFull(r, bin); err != nil {
+	// (e.g. empty string) reads nothing. The buffer grows with the bytes that
+	// actually arrive, so a corrupted size cannot force a huge allocation.
+	var bin bytes.Buffer
+	if _, err := io.CopyN(&bin, r, int64(f.size)); err != nil {
 		return nil, err // probably EOF, but raise an error
 	}
-	return bin, nil
+	return bin.Bytes(), nil
 }
+
+// extendedSize in the 16-bit size field means that the real size follows
+// as a 32-bit big-endian integer.
+const extendedSize = 0xFFFF
 
 func (f *Frame) Encode() []byte {
 	size := len(f.buffer)
@@ -44,6 +50,17 @@ func (f *Frame) Encode() []byte {
 		byte(f.frameType),
 		byte(size >> 8),
 		byte(size & 0xFF),
+	}
+	if size >= extendedSize {
+		meta = []byte{
+			byte(f.frameType),
+			0xFF,
+			0xFF,
+			byte(size >> 24),
+			byte(size >> 16),
+			byte(size >> 8),
+			byte(size),
+		}
 	}
 	return append(meta, f.buffer...)
 }
